@@ -129,9 +129,12 @@ fn check(ctx: &mut Ctx, c: &Case) {
     // the shell may be configured by a path relative to the process working directory
     let rec_spelling = if c.recorder_relative {
         match (c.via_cli, c.cwd_kind) {
-            (true, _) | (false, 0) => "../rec.sh".to_string(),
+            // CLI: a relative PATH entry (`relbin`, prepended for this run) holds a copy named `recsh`
+            (true, _) => "recsh".to_string(),
+            (false, 0) => "../rec.sh".to_string(),
             (false, 1) => "../../rec.sh".to_string(),
-            (false, 3) => "./rec.sh".to_string(),
+            // cwd is the directory that holds rec.sh: the bare name (not on PATH) names it
+            (false, 3) => "rec.sh".to_string(),
             _ => rec_path.display().to_string(),
         }
     } else {
@@ -163,7 +166,14 @@ fn check(ctx: &mut Ctx, c: &Case) {
         let _ = std::fs::remove_dir_all(prefix.parent().unwrap());
         let _ = std::fs::create_dir_all(prefix.parent().unwrap());
         strace_prefix = Some(prefix.clone());
-        let o = run_cli(&root, &cfg2.cli_args(), &CliOpts { strace_prefix: Some(prefix), ..Default::default() });
+        let mut env = vec![];
+        if c.recorder && c.recorder_relative {
+            let _ = std::fs::create_dir_all(root.join("relbin"));
+            let _ = std::fs::copy(&rec_path, root.join("relbin/recsh"));
+            let _ = std::process::Command::new("chmod").arg("+x").arg(root.join("relbin/recsh")).status();
+            env.push(("PATH".to_string(), format!("relbin:{}", std::env::var("PATH").unwrap_or_default())));
+        }
+        let o = run_cli(&root, &cfg2.cli_args(), &CliOpts { strace_prefix: Some(prefix), env, ..Default::default() });
         ctx.count("straced_cli_runs", 1);
         if o.timed_out || !matches!(o.code, Some(0) | Some(1)) {
             ctx.violation("C17:cli-abnormal-exit", o.short(), c.json());
